@@ -21,11 +21,39 @@ fn ref_text(rf: &Value, host_sheet: i64) -> String {
     let s = rf["s"].as_i64().unwrap_or(1);
     let prefix = if s != host_sheet { format!("Sheet{}!", s) } else { String::new() };
     let e1 = a1(rf["r1"].as_i64().unwrap_or(1), rf["c1"].as_i64().unwrap_or(1), rf["ar1"].as_bool().unwrap_or(false), rf["ac1"].as_bool().unwrap_or(false));
-    if rf["kind"] == "cell" {
+    let col = |c: &Value, abs: &Value| format!("{}{}", if abs.as_bool().unwrap_or(false) { "$" } else { "" }, number_to_column(c.as_i64().unwrap_or(1) as i32).unwrap_or("?".into()));
+    let row = |r: &Value, abs: &Value| format!("{}{}", if abs.as_bool().unwrap_or(false) { "$" } else { "" }, r);
+    if rf["kind"] == "name" {
+        rf["name"].as_str().unwrap_or("N1").to_string()
+    } else if rf["kind"] == "cols" {
+        format!("SUM({prefix}{}:{})", col(&rf["c1"], &rf["ac1"]), col(&rf["c2"], &rf["ac2"]))
+    } else if rf["kind"] == "rows" {
+        format!("SUM({prefix}{}:{})", row(&rf["r1"], &rf["ar1"]), row(&rf["r2"], &rf["ar2"]))
+    } else if rf["kind"] == "cell" {
         format!("{prefix}{e1}")
     } else {
         let e2 = a1(rf["r2"].as_i64().unwrap_or(1), rf["c2"].as_i64().unwrap_or(1), rf["ar2"].as_bool().unwrap_or(false), rf["ac2"].as_bool().unwrap_or(false));
         format!("SUM({prefix}{e1}:{e2})")
+    }
+}
+
+/// what is typed for a literal id (the vocabulary of Structural.tla's Lit(id))
+fn lit_text(k: &str, id: i64) -> String {
+    match (k, id) {
+        ("qtext", _) => format!("'00{}", id),
+        (_, 102) => "TRUE".into(),
+        (_, 103) => "0.123456789012345".into(),
+        (_, 104) => "hello world".into(),
+        (_, 105) => "'TRUE".into(),
+        (_, 106) => "1e3".into(),
+        (_, 107) => "2024-01-15".into(),
+        (_, 108) => "50%".into(),
+        (_, 109) => "$5.5".into(),
+        (_, 110) => "'=A1".into(),
+        (_, 111) => "#N/A".into(),
+        (_, 112) => "https://example.com/x".into(),
+        (_, 113) => "'1e3".into(),
+        _ => format!("{}", id),
     }
 }
 
@@ -47,6 +75,7 @@ fn collect_refs(n: &Node, host: (i32, i32), out: &mut Vec<Value>) {
                 "r1": abs(*absolute_row1, *row1, host.0), "c1": abs(*absolute_column1, *column1, host.1), "ar1": absolute_row1, "ac1": absolute_column1,
                 "r2": abs(*absolute_row2, *row2, host.0), "c2": abs(*absolute_column2, *column2, host.1), "ar2": absolute_row2, "ac2": absolute_column2}));
         }
+        Node::DefinedNameKind(d) => out.push(json!({"kind": "name", "name": d.0})),
         Node::WrongReferenceKind { .. } | Node::WrongRangeKind { .. } => out.push(json!("referr")),
         Node::ErrorKind(e) if format!("{e}") == "#REF!" => out.push(json!("referr")),
         Node::OpSumKind { left, right, .. } | Node::OpProductKind { left, right, .. } | Node::OpPowerKind { left, right }
@@ -83,6 +112,16 @@ fn spec_ref_matches(want: &Value, got: &Value) -> bool {
         _ => {
             if got == "referr" {
                 return false;
+            }
+            match want["kind"].as_str().unwrap_or("") {
+                "name" => return got["kind"] == "name" && got["name"] == want["name"],
+                "cols" => {
+                    return got["kind"] == "range" && got["r1"] == 1 && got["r2"] == 1_048_576 && ["s", "c1", "c2", "ac1", "ac2"].iter().all(|k| want[*k] == got[*k]);
+                }
+                "rows" => {
+                    return got["kind"] == "range" && got["c1"] == 1 && got["c2"] == 16_384 && ["s", "r1", "r2", "ar1", "ar2"].iter().all(|k| want[*k] == got[*k]);
+                }
+                _ => {}
             }
             for k in ["kind", "s", "r1", "c1", "ar1", "ac1", "r2", "c2", "ar2", "ac2"] {
                 if want[k] != got[k] {
@@ -136,6 +175,7 @@ pub fn replay(path: &str, out_dir: &str) -> Result<Value, String> {
     let language = ironcalc_base::language::get_language("en").map_err(|_| "language")?;
     let (mut n_beh, mut n_steps, mut n_mism, mut n_checks, mut refused) = (0usize, 0usize, 0usize, 0usize, 0usize);
     let mut nontrivial: BTreeSet<String> = Default::default();
+    let mut by_prop: BTreeMap<String, usize> = Default::default();
     let mut samples: Vec<Value> = vec![];
     for line in std::io::BufReader::new(f).lines() {
         let line = line.map_err(|e| e.to_string())?;
@@ -149,13 +189,18 @@ pub fn replay(path: &str, out_dir: &str) -> Result<Value, String> {
         um.set_selected_sheet(0)?;
         // ---- build the initial workbook
         let init = &b["init"];
+        let mut defined: Vec<(String, Option<u32>, String)> = vec![];
+        for nm in init["names"].as_array().cloned().unwrap_or_default() {
+            let f = ref_text(&nm["ref"], 0);
+            um.new_defined_name(nm["name"].as_str().unwrap_or("N1"), None, &f)?;
+            defined.push((nm["name"].as_str().unwrap_or("N1").to_string(), None, f));
+        }
         for cell in init["cells"].as_array().cloned().unwrap_or_default() {
             let (s, r, c) = (cell["s"].as_i64().unwrap_or(1), cell["r"].as_i64().unwrap_or(1) as i32, cell["c"].as_i64().unwrap_or(1) as i32);
             let v = &cell["v"];
             let text = match v["k"].as_str().unwrap_or("") {
-                "num" => format!("{}", v["id"]),
-                "qtext" => format!("'00{}", v["id"]),
-                _ => formula_text(v, s),
+                "f" => formula_text(v, s),
+                k => lit_text(k, v["id"].as_i64().unwrap_or(0)),
             };
             um.set_user_input((s - 1) as u32, r, c, &text)?;
             if v["b"] == json!(true) {
@@ -179,6 +224,15 @@ pub fn replay(path: &str, out_dir: &str) -> Result<Value, String> {
             "format": {"font": {"b": true}, "fill": null, "border": null, "num_fmt": null, "alignment": null}, "stop_if_true": false})).map_err(|e| format!("{e}"))?;
         um.add_conditional_formatting(0, &cf_text(cf0), rule)?;
         um.evaluate();
+        // what every literal shows at the start, by id
+        let obs0 = observe(&um);
+        let mut lits0: BTreeMap<i64, Value> = BTreeMap::new();
+        for cell in init["cells"].as_array().cloned().unwrap_or_default() {
+            if cell["v"]["k"] != "f" {
+                let key = (cell["s"].as_i64().unwrap_or(1), cell["r"].as_i64().unwrap_or(1), cell["c"].as_i64().unwrap_or(1));
+                lits0.insert(cell["v"]["id"].as_i64().unwrap_or(0), obs0.cells.get(&key).cloned().unwrap_or(Value::Null));
+            }
+        }
         // values of the formulas by id, before
         let mut values: BTreeMap<i64, String> = BTreeMap::new();
         for cell in init["cells"].as_array().cloned().unwrap_or_default() {
@@ -207,7 +261,7 @@ pub fn replay(path: &str, out_dir: &str) -> Result<Value, String> {
             let prop_of = |what: &str| -> &'static str {
                 match (op.as_str(), what) {
                     (_, "link") | (_, "cf") | ("clear_contents", _) | ("undo", _) | ("copy_paste", _) => "C33",
-                    ("insert_rows", _) | ("insert_cols", _) => if si > 0 { "C14" } else { "C12" },
+                    ("insert_rows", _) | ("insert_cols", _) => "C12",
                     ("delete_rows", _) | ("delete_cols", _) => if si > 0 && steps[si - 1]["a"]["op"].as_str().unwrap_or("").starts_with("insert") && steps[si - 1]["a"]["i"] == a["i"] && steps[si - 1]["a"]["k"] == a["k"] { "C14" } else { "C13" },
                     _ => "C15",
                 }
@@ -215,6 +269,10 @@ pub fn replay(path: &str, out_dir: &str) -> Result<Value, String> {
             let mut report = |what: &str, why: &str, detail: String| {
                 writeln!(mism, "{}", json!({"property": prop_of(what), "why": why, "subject": op, "case": {"program": program, "step": si}, "detail": detail})).ok();
             };
+            *by_prop.entry(prop_of("cell").to_string()).or_insert(0) += 1;
+            if prop_of("cell") != "C33" {
+                *by_prop.entry("C33".to_string()).or_insert(0) += 1;
+            }
             let obs = observe(&um);
             // ---- cells: positions and contents
             let mut expected_pos: BTreeSet<(i64, i64, i64)> = BTreeSet::new();
@@ -245,6 +303,14 @@ pub fn replay(path: &str, out_dir: &str) -> Result<Value, String> {
                             break;
                         }
                     }
+                    "lit" => {
+                        let want = lits0.get(&v["id"].as_i64().unwrap_or(0)).cloned().unwrap_or(Value::Null);
+                        if *got != want {
+                            report("cell", "cell-content", format!("{:?}: literal {} ({}) showed {} at the start, now {}", key, v["id"], lit_text("lit", v["id"].as_i64().unwrap_or(0)), want, got));
+                            bad = true;
+                            break;
+                        }
+                    }
                     "qtext" => {
                         if got["content"] != json!(format!("'00{}", v["id"])) || got["t"] != "text" {
                             report("cell", "cell-content", format!("{:?}: want quoted text '00{} got {}", key, v["id"], got));
@@ -256,7 +322,7 @@ pub fn replay(path: &str, out_dir: &str) -> Result<Value, String> {
                         // formula: references through the real parser
                         let text = got["content"].as_str().unwrap_or("").trim_start_matches('=').to_string();
                         let ctx = CellReferenceRC { sheet: format!("Sheet{}", key.0), row: key.1 as i32, column: key.2 as i32 };
-                        let mut p = Parser::new(vec!["Sheet1".to_string(), "Sheet2".to_string()], vec![], std::collections::HashMap::new(), locale, language);
+                        let mut p = Parser::new(vec!["Sheet1".to_string(), "Sheet2".to_string()], defined.clone(), std::collections::HashMap::new(), locale, language);
                         let node = p.parse(&text, &ctx);
                         let mut refs = vec![];
                         collect_refs(&node, (key.1 as i32, key.2 as i32), &mut refs);
@@ -279,8 +345,6 @@ pub fn replay(path: &str, out_dir: &str) -> Result<Value, String> {
                                 break;
                             }
                             nontrivial.insert(format!("{}:{}:f{}", op, a["i"], v["id"]));
-                        } else if let Some(fv) = got["fmt"].as_str() {
-                            values.insert(v["id"].as_i64().unwrap_or(0), fv.to_string());
                         }
                     }
                 }
@@ -292,6 +356,22 @@ pub fn replay(path: &str, out_dir: &str) -> Result<Value, String> {
             for key in obs.cells.keys() {
                 if !expected_pos.contains(key) {
                     report("cell", "extra-cell", format!("{:?} holds {}", key, obs.cells[key]));
+                    n_mism += 1;
+                    break 'steps;
+                }
+            }
+            // ---- defined names are displaced like any reference
+            for nm in st["names"].as_array().cloned().unwrap_or_default() {
+                n_checks += 1;
+                let list = um.get_defined_name_list();
+                let got = list.iter().find(|d| d.0 == nm["name"].as_str().unwrap_or("")).map(|d| d.2.clone()).unwrap_or_default();
+                let ctx = CellReferenceRC { sheet: "Sheet1".to_string(), row: 1, column: 1 };
+                let mut p = Parser::new(vec!["Sheet1".to_string(), "Sheet2".to_string()], vec![], std::collections::HashMap::new(), locale, language);
+                let node = p.parse(got.trim_start_matches('='), &ctx);
+                let mut refs = vec![];
+                collect_refs(&node, (1, 1), &mut refs);
+                if nm["ref"]["st"] != "open" && (refs.len() != 1 || !spec_ref_matches(&nm["ref"], &refs[0])) {
+                    report("cell", "defined-name-target", format!("name {} is {:?} ; want {}", nm["name"], got, nm["ref"]));
                     n_mism += 1;
                     break 'steps;
                 }
@@ -371,5 +451,5 @@ pub fn replay(path: &str, out_dir: &str) -> Result<Value, String> {
     }
     mism.flush().ok();
     Ok(json!({"cases": n_beh, "checks": n_checks, "steps": n_steps, "mismatches": n_mism, "distinct_nontrivial": nontrivial.len(), "samples": samples,
-              "no_verdict": refused}))
+              "no_verdict": refused, "steps_by_property": by_prop}))
 }
